@@ -327,12 +327,19 @@ func (d DataSpec) Bytes() []byte {
 				b = append(b, r.Bytes(1+r.Intn(6))...)
 			}
 		}
-	case "head_run": // incompressible head, then one long run of P1 bytes (sparse-file shape); head = Len-P1
+	case "head_run": // incompressible head, then one long run of P1 bytes (sparse-file shape; P2 > 0: a repeat of period P2); head = Len-P1
 		run := d.P1
 		if run > n {
 			run = n
 		}
 		b = append(b, r.Bytes(n-run)...)
+		if d.P2 > 0 {
+			// the long repeat has period P2 instead of being one byte value
+			pat := r.Bytes(d.P2)
+			for i := 0; len(b) < n; i++ {
+				b = append(b, pat[i%len(pat)])
+			}
+		}
 		for len(b) < n {
 			b = append(b, 0)
 		}
@@ -385,6 +392,7 @@ func GenData(r *kern.Rng, maxLen int) DataSpec {
 		d.P2 = r.Pick(0, 0, 3, 4, 7)
 	case "head_run":
 		d.P1 = r.Pick(300, 5000, 20000, 70000)
+		d.P2 = r.Pick(0, 0, 1, 7, 300)
 	case "logcopies":
 		d.P1 = r.Pick(0, 1, 1)
 	case "headtail":
